@@ -30,6 +30,36 @@ let parse_shape (t: string) : shape * pshape =
     | 'N' -> let ko = t.[!pos + 1] = '1' in adv 3; let (s, p) = sh () in (FMapRec (ko, s), PRMap p)
     | _ -> failwith "shape" in
   sh ()
+(* ---- wire shape (C14): the same text, keeping the plain kinds and the types of skipped fields ---- *)
+let parse_wshape (t: string) : wshape =
+  let pos = ref 0 in
+  let peek () = t.[!pos] in
+  let adv n = pos := !pos + n in
+  let rec sh () : wshape =
+    if peek () = 'E' then (adv 1; WEnum)
+    else begin
+      adv 2;
+      let rec fields () = let f = fd () in if peek () = ',' then (adv 1; WCons (f, fields ())) else (adv 1; WCons (f, WNil)) in
+      WStruct (fields ())
+    end
+  and fd () : wf =
+    match peek () with
+    | 'P' -> let k = t.[!pos + 1] in adv 2; WPlain (match k with 'i' -> PInt | 'o' -> POptInt | _ -> PEn)
+    | 'K' -> let k = t.[!pos + 1] in adv 2; (match k with '0' -> WSkipInt | '1' -> WSkipStruct (sh ()) | '2' -> WSkipSeq | _ -> WSkipOptInt)
+    | 'R' -> adv 1; WRec (sh ())
+    | 'Q' -> adv 1; WRecOpt (sh ())
+    | 'L' -> adv 2; WOrd
+    | 'U' -> adv 2; WUn
+    | 'M' -> adv 2; WMap
+    | 'N' -> let ko = t.[!pos + 1] = '1' in adv 3; WRMap (ko, sh ())
+    | _ -> failwith "wshape" in
+  sh ()
+let rec n_of_int n = if n = 0 then N0 else Npos (pos_of_int n)
+let int_of_n = function N0 -> 0 | Npos p -> int_of_pos p
+let hex bs = String.concat "" (List.map (fun b -> Printf.sprintf "%02x" (int_of_n b)) bs)
+let unhex s = if s = "-" then [] else List.init (String.length s / 2) (fun i -> n_of_int (int_of_string ("0x" ^ String.sub s (2 * i) 2)))
+let wshapes : (string, wshape) Hashtbl.t = Hashtbl.create 64
+
 (* ---- values ---- *)
 let rec parse_val (toks: string array) (i: int ref) : value =
   let t = toks.(!i) in incr i;
@@ -118,7 +148,23 @@ let () =
   iter_lines Sys.argv.(1) (fun line ->
     let toks = Array.of_list (split_ws line) in
     match toks.(0) with
-    | "SHAPE" -> let (m, p) = parse_shape toks.(3) in Hashtbl.replace shapes toks.(1) (toks.(2) = "1", m, p)
+    | "SHAPE" -> let (m, p) = parse_shape toks.(3) in Hashtbl.replace shapes toks.(1) (toks.(2) = "1", m, p); Hashtbl.replace wshapes toks.(1) (parse_wshape toks.(3))
+    | "WENC" ->      (* WENC id sid A <a> B <b>: the model's diff of (a, b) encoded in both formats *)
+      let id = toks.(1) in let (ko, s, _) = Hashtbl.find shapes toks.(2) in let ws = Hashtbl.find wshapes toks.(2) in
+      let i = ref 3 in
+      expect toks i "A"; let a = parse_val toks i in
+      expect toks i "B"; let b = parse_val toks i in
+      let d = x_diff ko s a b in
+      Printf.printf "%s NSM %s\n%s BCM %s\n" id (hex (w_ser_es NS ws d)) id (hex (w_ser_es BC ws d));
+      (* the produced diff lies in the domain of the round-trip theorem: the model decodes its own bytes to the same diff *)
+      List.iter (fun f -> match w_de_es f ws (w_ser_es f ws d) with Some (d', []) when d' = d -> () | _ -> Printf.printf "MODEL-SELF-FAIL %s decode(encode(diff)) <> diff\n" id) [NS; BC]
+    | "WDEC" ->      (* WDEC id sid tag fmt hex: decode bytes produced by the implementation *)
+      let id = toks.(1) in let (_, _, ps) = Hashtbl.find shapes toks.(2) in let ws = Hashtbl.find wshapes toks.(2) in
+      let f = if toks.(4) = "ns" then NS else BC in
+      (match w_de_es f ws (unhex toks.(5)) with
+       | Some (es, []) -> Printf.printf "%s %s %s\n" id toks.(3) (show_entries ps es)
+       | Some (es, _) -> Printf.printf "%s %s TRAILING %s\n" id toks.(3) (show_entries ps es)
+       | None -> Printf.printf "%s %s UNDECODABLE\n" id toks.(3))
     | "PAIR" ->
       let id = toks.(1) in let (ko, s, ps) = Hashtbl.find shapes toks.(2) in
       let i = ref 3 in
